@@ -3,7 +3,7 @@ import os, json, glob, subprocess, shutil
 from . import ws, batch
 from .ws import log
 
-FRONT_KINDS = {("C11", "case"), ("C12", "roundtrip"), ("C18", "history"), ("C15", "compile"), ("C04", "runtime")}
+FRONT_KINDS = {("C11", "case"), ("C12", "roundtrip"), ("C18", "history"), ("C15", "compile"), ("C04", "runtime"), ("C16", "history")}
 
 
 def _records(prop):
@@ -52,7 +52,7 @@ def run(prop):
                     v = dict(property=prop, kind=kind, message="regression case fails")
                 v["regression"] = os.path.basename(path)
                 v["message"] = "[regression %s] %s" % (os.path.basename(path), v.get("message", ""))
-                for k in ("text", "pos", "file", "color", "history", "model", "derives", "expect", "sub", "offset", "matcher", "lit", "c1", "c2"):
+                for k in ("text", "pos", "file", "color", "history", "ops", "model", "derives", "expect", "sub", "offset", "matcher", "lit", "c1", "c2"):
                     if k in rec and k not in v:
                         v[k] = rec[k]
                 violations.append(v)
